@@ -256,8 +256,14 @@ pub fn draw_site(inv: &BTreeMap<ChanKey, ChanStat>, filter: &dyn Fn(&ChanKey) ->
     if cands.is_empty() {
         return None;
     }
-    // stratify by gate name first (every step gets a fair share), then by channel
-    let mut gates: Vec<&str> = cands.iter().map(|(k, _)| k.gate.as_str()).collect();
+    // stratify by stage (third path component without its index: a stage with hundreds of bit-level gates must not
+    // crowd out the others), then by gate name (every step gets a fair share), then by channel
+    let stage_of = |g: &str| g.split('/').nth(2).unwrap_or("").trim_end_matches(char::is_numeric).to_string();
+    let mut stages: Vec<String> = cands.iter().map(|(k, _)| stage_of(&k.gate)).collect();
+    stages.sort_unstable();
+    stages.dedup();
+    let st = stages[r.below(stages.len())].clone();
+    let mut gates: Vec<&str> = cands.iter().filter(|(k, _)| stage_of(&k.gate) == st).map(|(k, _)| k.gate.as_str()).collect();
     gates.sort_unstable();
     gates.dedup();
     let g = gates[r.below(gates.len())];
